@@ -52,9 +52,66 @@ class Universe:
         for ov in self.reg.overloads:
             self.payload_ov.setdefault(ov.func.key, []).append(ov)
         self._envs = {}
+        self.derived_construction = set()
+        self._derive_construction()
+
+    def _derive_construction(self):
+        """Helpers that construction-time code was split into: a function
+        all of whose call sites (by name, anywhere in the repository) lie in
+        construction-time functions is construction-time itself."""
+        idx = {}
+        for f in self.repo.all_functions():
+            for c in model.calls_in(f.node, shallow=True):
+                nm = c.func.attr if isinstance(c.func, ast.Attribute) else (
+                    c.func.id if isinstance(c.func, ast.Name) else None)
+                if nm:
+                    idx.setdefault(nm, []).append(f)
+        # names that are also referenced without being called (passed as a
+        # value) can run at any time
+        loaded = {}
+        for f in self.repo.all_functions():
+            for n in model.walk_shallow(f.node):
+                if isinstance(n, ast.Name) and isinstance(n.ctx, ast.Load):
+                    par = getattr(n, '_parent', None)
+                    if not (isinstance(par, ast.Call) and par.func is n):
+                        loaded.setdefault(n.id, 0)
+                        loaded[n.id] += 1
+        changed = True
+        while changed:
+            changed = False
+            for f in self.repo.all_functions():
+                if f.key in self.derived_construction or \
+                        f.key in self.payload_ov or f.name.startswith('__'):
+                    continue
+                if f.parent_func is not None:
+                    continue
+                if self._base_role(f) in ('construction', 'register', 'cli'):
+                    continue
+                if not f.name.startswith('_') or loaded.get(f.name):
+                    continue
+                callers = idx.get(f.name, [])
+                if callers and all(
+                        self._base_role(c) in ('construction', 'register')
+                        or c.key in self.derived_construction or
+                        self._top(c).key in self.derived_construction
+                        for c in callers):
+                    self.derived_construction.add(f.key)
+                    changed = True
+
+    @staticmethod
+    def _top(fi):
+        while fi.parent_func is not None:
+            fi = fi.parent_func
+        return fi
 
     # -- classification -----------------------------------------------------
     def role(self, fi):
+        if self._top(fi).key in self.derived_construction and \
+                fi.key not in self.payload_ov:
+            return 'construction'
+        return self._base_role(fi)
+
+    def _base_role(self, fi):
         """payload | nested | helper | register | core | construction | cli
         | hostapi"""
         mod = fi.module.name
@@ -131,10 +188,19 @@ class Universe:
                 elif p.kind in ('vararg', 'varkw'):
                     tags[p.name] = ({origins.FRESH},
                                     {('derived', p.name)})
+                elif self._declared_repo_class(p):
+                    # an object of a class the library itself defines
+                    # (OrderingIterable ...): built during the evaluation,
+                    # not host data; what it *holds* may be
+                    tags[p.name] = ({('libobj', p.name)},
+                                    {('derived', p.name)})
                 else:
                     tags[p.name] = ({('param', p.name)},
                                     {('derived', p.name)})
             return tags
+        inherited = self._tags_from_call_sites(fi)
+        if inherited is not None:
+            return inherited
         pos = [x.arg for x in a.posonlyargs + a.args]
         is_method = fi.is_method and \
             not any(isinstance(d, ast.Name) and d.id == 'staticmethod'
@@ -156,6 +222,107 @@ class Universe:
         if a.kwarg:
             tags[a.kwarg.arg] = ({origins.FRESH},
                                  {('derived', a.kwarg.arg)})
+        return tags
+
+    def _declared_repo_class(self, p):
+        pts = p.type.python_types
+        if not pts:
+            return False
+        for t in pts:
+            ci = self.repo.lookup(t)
+            if not (isinstance(ci, model.ClassInfo) and
+                    ci.module.name.startswith('yaql.standard_library')):
+                return False
+        return True
+
+    def _tags_from_call_sites(self, fi):
+        """A private module-level helper sees what its callers hand it: the
+        tags of each parameter are the join of the tags of the actual
+        arguments at every call site.  None if the helper can be reached in
+        other ways (public name, passed around as a value, no call site,
+        recursion)."""
+        if fi.parent_func is not None or fi.cls is not None or \
+                not fi.name.startswith('_') or fi.name.startswith('__'):
+            return None
+        busy = self.__dict__.setdefault('_busy_tags', set())
+        if fi.key in busy:
+            return None
+        idx = self.__dict__.get('_call_idx')
+        if idx is None:
+            idx = {}
+            loaded = {}
+            for f in self.repo.all_functions():
+                for n in ast.walk(f.node):
+                    if isinstance(n, ast.Call) and isinstance(
+                            n.func, ast.Name):
+                        idx.setdefault((f.module.name, n.func.id),
+                                       []).append((f, n))
+                    elif isinstance(n, ast.Name) and isinstance(
+                            n.ctx, ast.Load):
+                        par = getattr(n, '_parent', None)
+                        if not (isinstance(par, ast.Call) and
+                                par.func is n):
+                            loaded[(f.module.name, n.id)] = True
+            self._call_idx = idx
+            self._loaded_idx = loaded
+        if self._loaded_idx.get((fi.module.name, fi.name)):
+            return None
+        sites = [(f, c) for f, c in idx.get((fi.module.name, fi.name), [])
+                 if model.enclosing_function(c) is f.node]
+        if not sites:
+            return None
+        a = fi.node.args
+        pos = [x.arg for x in a.posonlyargs + a.args]
+        acc = {n: [set(), set()] for n in pos}
+        busy.add(fi.key)
+        try:
+            for f, c in sites:
+                if any(isinstance(x, ast.Starred) for x in c.args) or any(
+                        k.arg is None for k in c.keywords):
+                    return None
+                env = self.env(f)
+                amap = {}
+                for i, x in enumerate(c.args):
+                    if i < len(pos):
+                        amap[pos[i]] = x
+                for k in c.keywords:
+                    amap[k.arg] = k.value
+                for n in pos:
+                    if n not in amap:
+                        continue
+                    v = env.ev(amap[n])
+                    acc[n][0] |= set(v.tags)
+                    acc[n][1] |= set(v.c1) | set(v.deep)
+        finally:
+            busy.discard(fi.key)
+        tags = {}
+        for n in pos:
+            obj, inner = acc[n]
+            if n in CTX_NAMES and not obj:
+                tags[n] = ({('ctx', n)}, set())
+                continue
+            # rename per-caller roots to this function's own parameter so
+            # that reports name it
+            def own(ts):
+                out = set()
+                for t in ts:
+                    if t[0] in ('param', 'derived', 'lazyres'):
+                        out.add((t[0], n))
+                    else:
+                        out.add(t)
+                return out
+            if not obj:
+                tags[n] = ({('param', n)}, {('derived', n)})
+            else:
+                tags[n] = (own(obj), own(inner))
+        if a.vararg:
+            tags[a.vararg.arg] = ({origins.FRESH},
+                                  {('derived', a.vararg.arg)})
+        if a.kwarg:
+            tags[a.kwarg.arg] = ({origins.FRESH},
+                                 {('derived', a.kwarg.arg)})
+        for x in a.kwonlyargs:
+            tags[x.arg] = ({('param', x.arg)}, {('derived', x.arg)})
         return tags
 
     def env(self, fi):
